@@ -41,6 +41,12 @@ var (
 	fRetRecv   func(int) <-chan int
 	fTakesChan func(chan int) int
 	fRetErrIfc func(int) (Shape, error)
+	// arity mismatches between adjacent stages, in both directions, with assignable leading types
+	f3r  func(string) (string, string, error)
+	fp1  func(string) (int, error)
+	fp2  func(string, string) (int, error)
+	f1r  func(string) (string, error)
+	fp3  func(string, string, string) (int, error)
 	fTakesImpE func(*Square) (int, error)
 	slShapes   []Shape
 	slSquares  []*Square
@@ -86,7 +92,7 @@ var (
 
 var argTemplates = []string{"", "i", "i, i", "i, s", "i, i, i", "s, s", "b, b", "cx, cx", "sl", "sl, sl", "sl, sl2", "sl, i", "sl, s", "slb, b", "slc, cx", "slb", "slc",
 	"m", "m, m", "fn", "fn, sl", "fn, sl2", "fn, i", "fn, s", "fb, sl", "fb, sl2", "fn2", "fn2, i", "fnv", "fnv, i", "fnv3", "fnv3, i", "fnv3, s", "fnvs", "fnvs, sl2", "fcur", "f0", "f0, f0", "fs, s", "fn, fs",
-	"fRetIface, fTakesImpl", "fRetImpl, fTakesIfc", "fRetRecv, fTakesChan", "fRetErrIfc, fTakesImpE", "fTakesImpl, slShapes", "fTakesIfc, slSquares",
+	"fRetIface, fTakesImpl", "fRetImpl, fTakesIfc", "fRetRecv, fTakesChan", "fRetErrIfc, fTakesImpE", "f3r, fp1", "f3r, fp2", "f1r, fp2", "f3r, fp3", "f1r, fp1", "f1r, f3r, fp2", "f1r, f3r, fp1", "fTakesImpl, slShapes", "fTakesIfc, slSquares",
 	"slShapes, sq", "slSquares, shp", "slShapes, slSquares", "sq, shp", "shp, sq", "fTakesImpl, shp", "fTakesIfc, sq",
 	"1, 2", "1, \"a\"", "1.5, 2.5", "true, false", "c1, c2", "c1, cs", "cf, cf", "sl, 0", "sl, c1", "\"a\", \"b\"", "c1", "'x', 'y'",
 	"ch", "ch, ch", "fn, ch", "chch", "iface", "iface, iface", "st, st", "pst, pst", "pst", "nil", "nil, nil", "err, fb", "ffe, sl", "fn, fn", "fn2, fn", "i, fn", "ffe, ffe", "sl, fn"}
